@@ -151,6 +151,47 @@ def run(ctx):
             ok = False
         ctx.oracle("t_eval-out-of-range-rejected", ok, dict(kind="solve_ivp", t_span=t_span, t_eval=te), what="t_eval outside the span was not rejected with ValueError")
 
+    # solve_ivp(t_eval=...) with fixed-step methods against the whole-run model DV.Run (the t_eval loop is the call sequence
+    # integrate(t_1), integrate(t_2), ...: theorem t_eval_loop_is_the_object_api): returned times exactly, columns = the model's samples
+    import random as _random, runsim
+    from fractions import Fraction as Fr
+    r = _random.Random(ctx.seed * 7919 + 18)
+    cases, lines = [], []
+    for name in runsim.RK_FIXED[:4]:
+        for _ in range(2 if ctx.quick() else 12):
+            kind, t0, tf, dt, ops = runsim.dyadic_plan(r)
+            dirn = 1 if tf > t0 else -1
+            span = abs(tf - t0)
+            te = sorted(set(t0 + dirn * span * Fr(r.randint(1, 31), 32) for _ in range(r.randint(1, 5))))
+            rhs = runsim.linear_rhs(r, r.choice([1, 2]))
+            y0 = [Fr(r.randint(-16, 16), 16) for _ in range(rhs.n)]
+            inp = dict(kind="facade-t_eval", method=name, rhs=rhs.proto(), t0=str(t0), tf=str(tf), first_step=str(abs(dt)), t_eval=[str(v) for v in te], y0=[str(v) for v in y0])
+            try:
+                res = de.solve_ivp(lambda t, y, rhs=rhs: rhs(t, y), (float(t0), float(tf)), np.array([float(v) for v in y0]), method=getattr(I, name),
+                                   t_eval=np.array([float(v) for v in te]), first_step=float(abs(dt)))
+            except Exception as e:
+                ctx.oracle("facade-runs", False, inp, what="solve_ivp raised %r" % (e,))
+                continue
+            visit = te if dirn > 0 else te[::-1]
+            cases.append((inp, res, visit, rhs.n))
+            lines.append(runsim.model_line("rk", name, rhs, None, t0, tf, dirn * abs(dt), y0, [("i", v) for v in visit]))
+    for (inp, res, visit, n), o in zip(cases, ctx.driver(lines)):
+        m = runsim.parse_model(o, n)
+        rt = [Fr(float(v)) for v in np.asarray(res.t).reshape(-1)]
+        ok_t = sorted(rt) == sorted(visit)
+        ctx.oracle("t_eval-times-returned", ok_t, dict(inp, returned=[float(v) for v in rt]), what="returned times %s, requested %s" % ([float(v) for v in rt], [float(v) for v in visit]))
+        ok = False
+        worst = None
+        if m is not None and ok_t:
+            lookup = {t: y for t, y in zip(m[0], m[1])}
+            ry = np.asarray(res.y, dtype=np.float64).reshape(n, len(rt))
+            if all(t in lookup for t in rt):
+                scale = max(1.0, max(abs(float(v)) for row in m[1] for v in row))
+                worst = max(abs(float(Fr(float(ry[i, k])) - lookup[t][i])) for k, t in enumerate(rt) for i in range(n)) / scale
+                ok = worst <= 1e-11 * max(1, len(m[0]))
+        ctx.corr("facade-t_eval-vs-whole-run-model", ok, dict(inp, worst_state_diff=worst, model_times=None if m is None else [float(v) for v in m[0]][:10]))
+        ctx.count("facade-t_eval:" + inp["method"])
+
 
 def replay(rep):
     return False
